@@ -2,7 +2,7 @@
    argument tokens in, an outcome and result tokens out.  All calls into the
    models are made here, in Gallina; the hand-written OCaml only tokenises. *)
 From Coq Require Import String Ascii.
-From Dryoc Require Import Lib.Outcome Impl.Blake2b Impl.Kdf Impl.Argon2 Impl.Cores Impl.Poly1305 Impl.Hashes Impl.SecretBox Impl.Box Impl.SecretStream Impl.Scalarmult Impl.PwhashStr Impl.Serde Impl.Rng Impl.Sign Impl.Protected Impl.TypeState.
+From Dryoc Require Import Lib.Outcome Impl.Blake2b Impl.Kdf Impl.Argon2 Impl.PwhashVerify Impl.Cores Impl.Poly1305 Impl.Hashes Impl.SecretBox Impl.Box Impl.SecretStream Impl.Scalarmult Impl.PwhashStr Impl.Serde Impl.Rng Impl.Sign Impl.Protected Impl.TypeState.
 Open Scope Z_scope.
 
 Inductive tok :=
@@ -152,6 +152,14 @@ Definition dispatch (op : string) (args : list tok) : option (outcome (list tok)
     match args with
     | [TI outlen; TB pw; TB salt; TB ops; TB mem; TI alg] =>
         Some (omap (fun h => [TB h]) (Argon2Impl.crypto_pwhash (Z.to_nat outlen) pw salt (le_val ops) (le_val mem) alg))
+    | _ => None end
+  else if String.eqb op "pwhash.str" then
+    match args with
+    | [TB pw; TB salt; TB ops; TB mem] => Some (out1 (PwhashVerify.str pw salt (le_val ops) (le_val mem)))
+    | _ => None end
+  else if String.eqb op "pwhash.str_verify" then
+    match args with
+    | [TB s; TB pw] => Some (omap (fun _ : unit => []) (PwhashVerify.str_verify s pw))
     | _ => None end
   else if String.eqb op "pwhash.verify" then
     match args with
